@@ -152,6 +152,8 @@ def rule_until(ctx):
 
     def cell(ch):
         region = ch.choose("--until", ["default", -5, -2, -1, 0, 1, 7])
+        # an empty file name (a quoted unset shell variable) is an unusable argument, not a program error
+        names = ch.choose("file names", [("cid", ["data"]), ("", ["data"]), ("cid", [""]), ("cid", ["data", ""])])
 
         @stub
         def parser_error(interp, args, kwargs):
@@ -173,7 +175,7 @@ def rule_until(ctx):
                 if isinstance(value, int):
                     value = RInt(value)
                 return Obj("argparse.Namespace", {"log_level": "info", "is_create_sql": False, "is_gui": False, "validate_until": value,
-                                                  "plugins_folder": None, "data_paths": ["data"], "cid_path": "cid"})
+                                                  "plugins_folder": None, "data_paths": list(names[1]), "cid_path": names[0]})
 
             return Obj("argparse.ArgumentParser", {"add_argument": add_argument, "parse_args": parse_args, "error": parser_error})
 
@@ -199,9 +201,11 @@ def rule_until(ctx):
             actual = "raise " + exc_name(raised.value)
         number = -1 if region == "default" else region
         expected = None if number == -1 else (number if number >= 0 else "raise SystemExit")
-        return ("--until %s" % region, actual, expected)
+        if names[0] == "" or "" in names[1]:
+            expected = "raise SystemExit"
+        return ("--until %s, CID %r, data files %r" % (region, names[0], names[1]), actual, expected)
 
-    decide(ctx, "O18.4", "--until mapping", APP + ".set_options", cell, min_cells=7)
+    decide(ctx, "O18.4", "--until mapping and file names", APP + ".set_options", cell, min_cells=28)
 
 
 def rule_oserror(ctx):
